@@ -187,12 +187,12 @@ def run(ctx):
     ps = "<noodles_bgzf::r#async::io::writer::Writer<W> as tokio::io::async_write::AsyncWrite>::poll_shutdown"
     R.must_pass(ctx, "C14.R3", ps, r"async::io::writer::Writer<W> as tokio::io::async_write::AsyncWrite>::poll_flush$",
                 "async bgzf poll_shutdown flushes staged data")
-    R.must_pass(ctx, "C14.R3", ps, r"Sink<Item>>::poll_close$|::poll_close$", "async bgzf poll_shutdown closes the deflate sink")
+    R.must_pass(ctx, "C14.R3", ps, r"Sink<Item>>::poll_(flush|close)$|::poll_close$", "async bgzf poll_shutdown drains the deflate sink (every data block reaches the inner writer)")
     fps = ctx.anchor("C14.R3", ps)
     if fps is not None:
         # Ready(Ok) only after the EOF buffer is exhausted: the success exit is reachable only via has_remaining()==false
         sw = R.switch_on_call(fps, r"::has_remaining$")
-        ex = [b for b, k in C.exit_points(fps) if k == "ok"]
+        ex = [b for b, k in C.exit_points(fps) if k in ("ok", "tail")]
         if len(sw) != 1 or not ex:
             ctx.violation("C14.R3", "C14.R3/eof-loop/" + ps, "poll_shutdown no longer loops on eof_buf.has_remaining()", fps.loc())
         else:
@@ -202,6 +202,34 @@ def run(ctx):
                 ctx.violation("C14.R3", "C14.R3/eof-bypass/" + ps, "poll_shutdown can complete before the EOF block is fully written", fps.loc())
             else:
                 ctx.ok("C14.R3", ps + " :: Ready(Ok) only when eof_buf is exhausted", "", fps.loc())
+        # ordering (defect F36): the EOF block is written BEFORE the inner writer is shut down, and the inner writer is shut down
+        # (or at least flushed) AFTER it: a buffering destination otherwise keeps the EOF block in its buffer for ever
+        writes = [b for b, c in fps.calls() if re.search(r"AsyncWrite>?::poll_write$", c.get("f") or "")]
+        downs = [(b, c) for b, c in fps.calls() if re.search(r"Sink<Item>>::poll_close$|::poll_close$|AsyncWrite>?::poll_shutdown$", c.get("f") or "")
+                 and not (c.get("f") or "").endswith("Writer<W> as tokio::io::async_write::AsyncWrite>::poll_shutdown")]
+        lasts = [b for b, c in fps.calls() if re.search(r"AsyncWrite>?::poll_(shutdown|flush)$|Sink<Item>>::poll_close$", c.get("f") or "")
+                 and not (c.get("f") or "").endswith("Writer<W> as tokio::io::async_write::AsyncWrite>::poll_flush")]
+        if not writes:
+            ctx.violation("C14.R3", "C14.R3/ANCHOR-MISSING/%s/eof-write" % ps, "poll_shutdown no longer writes the EOF bytes with poll_write", fps.loc())
+        else:
+            early = [b for b, c in downs if c.get("t") is not None and any(w in C.reachable(fps, c["t"]) for w in writes)]
+            if early:
+                ctx.violation("C14.R3", "C14.R3/shutdown-before-eof/" + ps,
+                              "poll_shutdown shuts the inner writer down (sink poll_close / poll_shutdown) on a path that writes the EOF block "
+                              "afterwards: a buffering inner writer keeps those 28 bytes in its buffer, nothing flushes them, and every call "
+                              "returns Ok for a file without EOF block", fps.loc(early[0]))
+            else:
+                after = set()
+                for b in lasts:
+                    if any(b in C.reachable(fps, fps.blocks[w]["t"][1]["t"]) for w in writes if fps.blocks[w]["t"][1].get("t") is not None):
+                        after.add(b)
+                okx = [e for e in ex if e in C.reachable(fps, writes[0], removed=after)]
+                if after and not okx:
+                    ctx.ok("C14.R3", ps + " :: EOF block written before the inner writer is shut down, which happens last", "", fps.loc(writes[0]))
+                else:
+                    ctx.violation("C14.R3", "C14.R3/no-shutdown-after-eof/" + ps,
+                                  "poll_shutdown can complete after writing the EOF block without shutting down / flushing the inner writer: "
+                                  "a buffering inner writer keeps the EOF block in its buffer", fps.loc(writes[0]))
         # the EOF buffer is BGZF_EOF
     # who initialises eof_buf with BGZF_EOF
     inits = [k for k, f in fb.fns.items() if k.startswith("noodles_bgzf::r#async::io::writer") and
@@ -339,3 +367,69 @@ def run(ctx):
         R.must_pass(ctx, "C14.R6", k, None, "the locally created writer is flushed / finished before Ok", fn=body,
                     callpred=lambda fn_, c: bool(FIN6.search(c.get("f") or "")))
     ctx.floor("C14.R6", "functions that create, fill and drop a file writer", n6, 12)
+
+    # ---------------------------------------------------------------- R7 a buffering writer that never leaves the function
+    ctx.rule("C14.R7", "A3 local buffering writers: a BufWriter (std / tokio) constructed in a function and not handed back to the caller is "
+                       "flushed (flush / into_inner / into_parts / shutdown) on every path to a success exit: its Drop flushes too, but "
+                       "discards the destination's error")
+    from .. import a10
+    CTOR7 = re.compile(r"(bufwriter::BufWriter|buf_writer::BufWriter|linewriter::LineWriter)::<\w+>::(new|with_capacity)$")
+    FIN7 = re.compile(r"::(flush|into_inner|into_parts|shutdown|finish|try_finish)$")
+    n7 = esc7 = 0
+    for k, f in sorted(fb.fns.items()):
+        if not f.blocks or not k.startswith(("noodles_", "<noodles_")) or f.crate in ("noodles_htsget", "noodles_refget"):
+            continue
+        for bi, c in f.calls():
+            if not CTOR7.search(c.get("f") or "") or c.get("dest") is None or c["dest"][1]:
+                continue
+            n7 += 1
+            ctx.saw_fn(f)
+            der = a10._derived_from(f, c["dest"][0])
+            own = _owned_flow(f, c["dest"][0])
+            if 0 in own:
+                esc7 += 1
+                ctx.ok("C14.R7", "%s :: %s" % (k, c["f"].split("::")[-3]), "the writer is handed back to the caller (its owner finishes it: R1/R3)", f.loc(bi))
+                continue
+            fins = {b for b, c2 in f.calls() if FIN7.search(c2.get("f") or "") and any(C.op_local(a) in der for a in c2["args"] if C.op_local(a) is not None)}
+            ex = C.success_exit_blocks(f)
+            nxt = c.get("t")
+            reach = C.reachable(f, nxt, removed=fins) if nxt is not None and nxt not in fins else set()
+            bad = [e for e in ex if e in reach]
+            if bad:
+                ctx.violation("C14.R7", "C14.R7/local-bufwriter-not-flushed/" + k,
+                              "%s wraps its destination in a buffering writer that never leaves the function and can reach a success exit without "
+                              "flushing it: the buffered tail (for BGZF: the EOF block, or a whole small file) is written in Drop, where a "
+                              "failure of the destination is discarded, and the function still reports Ok" % k, f.loc(bi))
+            else:
+                ctx.ok("C14.R7", "%s :: %s" % (k, c["f"].split("::")[-3]), "flushed on every path to a success exit (%d flush site(s))" % len(fins), f.loc(bi))
+    ctx.floor("C14.R7", "BufWriter constructions (all handed back to the caller today: the positive example that the detector sees them)", n7, 8)
+
+
+
+def _owned_flow(f, seed):
+    """Locals that (may) OWN the value created in `seed`: moves, casts (unsizing of a Box), aggregates and results of calls that
+    are handed an owning local by move. Borrows do not transfer ownership: `write_frame(&mut dst, ..)?` does not make the
+    function's result own `dst`."""
+    own = {seed}
+    changed = True
+    while changed:
+        changed = False
+        for blk in f.blocks:
+            if blk.get("cu"):
+                continue
+            for st in blk["s"]:
+                if st[0] != "=" or st[1][1] or st[1][0] in own:
+                    continue
+                rv = st[2]
+                if rv[0] in ("use", "cast", "agg", "repeat"):
+                    if any(l in own for op in R.rvalue_operands(rv) if op[0] in ("m", "c") and not op[1][1] for l in [op[1][0]]):
+                        own.add(st[1][0])
+                        changed = True
+            t = blk["t"]
+            if t[0] == "call":
+                d = t[1].get("dest")
+                if d is not None and not d[1] and d[0] not in own:
+                    if any(a[0] == "m" and not a[1][1] and a[1][0] in own and not f.locals[a[1][0]].startswith("&") for a in t[1]["args"]):
+                        own.add(d[0])
+                        changed = True
+    return own
